@@ -1,7 +1,7 @@
 from props import COMMON_TRUSTED
 
 SPEC = {
-    "translators": ["tr_variation.py"],
+    "translators": ["tr_variation.py", "tr_type2.py", "tr_cff2inst.py"],
     "harness": "c12",
     "cases": {"quick": 30000, "thorough": 600000},
     "profiles": {"quick": ["debug", "release"], "thorough": ["debug", "release"]},
